@@ -1,8 +1,108 @@
-(* Property C05 — theorems only.  Model: Model/C05_Nsga2.v (deap/tools/emo.py). *)
+(* Property C05 — theorems only.
+   Model: Model/C05_Nsga2.v (deap/tools/emo.py: selNSGA2 after the sort, assignCrowdingDist),
+   generic in the arithmetic `o` (IEEE floats / exact rationals).
+   Specification: Model/C05_Spec.v (dominance depth by peeling; fronts_correct = what the
+   non-dominated sorter is assumed to return; decided in Coq on the implementation's fronts in
+   every correspondence case). *)
 From Coq Require Import List ZArith QArith Bool.
-From DV Require Import Base.PyList Model.C05_Nsga2 Model.C05_Spec Proofs.C05_Nsga2.
+From DV Require Import Base.PyList Model.C05_Nsga2 Model.C05_Spec
+     Proofs.C05_Spec Proofs.C05_Nsga2 Proofs.C05_QInst.
 Import ListNotations.
+Local Open Scope nat_scope.
 
-Theorem C05_sel_some : forall o fronts k, fronts <> [] -> exists r, sel_nsga2 o fronts k = Some r.
-Proof. exact sel_some. Qed.
-Print Assumptions C05_sel_some.
+(* selNSGA2 does not fail (pareto_fronts[-1] exists whenever it is read) *)
+Theorem C05_nsga2_defined : forall o (pop : list (ind (V o))) k fronts,
+  fronts_correct pop k fronts -> exists r, sel_nsga2 o fronts k = Some r.
+Proof. intros o pop k fronts. exact (sel_defined_aux o pop fronts k). Qed.
+Print Assumptions C05_nsga2_defined.
+
+(* exactly min(k, n) individuals *)
+Theorem C05_nsga2_size : forall o (pop : list (ind (V o))) k fronts r,
+  fronts_correct pop k fronts -> sel_nsga2 o fronts k = Some r ->
+  length r = Nat.min k (length pop).
+Proof. exact size_min. Qed.
+Print Assumptions C05_nsga2_size.
+
+(* each of them one of the input objects, none twice *)
+Theorem C05_nsga2_refs_nodup : forall o (pop : list (ind (V o))) k fronts r,
+  wf_pop pop -> fronts_correct pop k fronts -> sel_nsga2 o fronts k = Some r ->
+  (forall x, In x r -> In x pop) /\ NoDup (uids r).
+Proof. intros o pop k fronts r W F S. split; [exact (refs o pop k fronts r F S)|exact (nodup o pop k fronts r W F S)]. Qed.
+Print Assumptions C05_nsga2_refs_nodup.
+
+(* no individual left out belongs to a strictly better front than a selected one *)
+Theorem C05_nsga2_front_priority : forall o (pop : list (ind (V o))) k fronts r,
+  fronts_correct pop k fronts -> sel_nsga2 o fronts k = Some r ->
+  forall x y, In x r -> In y pop -> ~ In (uid y) (uids r) -> depth pop x <= depth pop y.
+Proof. exact front_priority. Qed.
+Print Assumptions C05_nsga2_front_priority.
+
+(* only one front is taken partially: every front better than some depth c is taken whole,
+   every worse front not at all *)
+Theorem C05_nsga2_one_partial_front : forall o (pop : list (ind (V o))) k fronts r,
+  fronts_correct pop k fronts -> sel_nsga2 o fronts k = Some r ->
+  exists c, forall y, In y pop ->
+    (depth pop y < c -> In (uid y) (uids r)) /\ (c < depth pop y -> ~ In (uid y) (uids r)).
+Proof. exact one_partial_front. Qed.
+Print Assumptions C05_nsga2_one_partial_front.
+
+(* inside the cut front (the last front handed over by the sorter) every kept individual has a
+   crowding distance at least as large as every dropped one.
+   Generic form: for any arithmetic whose `<` on distances is a strict weak order on a set P
+   containing the distances of that front (all floats except NaN, for instance). *)
+Theorem C05_nsga2_crowding_cut_generic : forall o (pop : list (ind (V o))) k fronts r,
+  wf_pop pop -> fronts_correct pop k fronts -> sel_nsga2 o fronts k = Some r ->
+  forall P : D o -> Prop,
+  (forall a b, P a -> P b -> dltb o a b = true -> dltb o b a = false) ->
+  (forall a b c, P a -> P b -> P c -> dltb o b a = false -> dltb o c b = false -> dltb o c a = false) ->
+  forall lastf, lastf = last fronts [] -> Forall P (assign_crowding o lastf) ->
+  forall x dx y dy,
+    In (x, dx) (combine lastf (assign_crowding o lastf)) ->
+    In (y, dy) (combine lastf (assign_crowding o lastf)) ->
+    In (uid x) (uids r) -> ~ In (uid y) (uids r) -> dltb o dx dy = false.
+Proof. exact crowding_cut. Qed.
+Print Assumptions C05_nsga2_crowding_cut_generic.
+
+(* the exact-rational instance, no side condition: kept >= dropped *)
+Theorem C05_nsga2_crowding_cut : forall (pop : list (ind Q)) k fronts r,
+  wf_pop pop -> fronts_correct pop k fronts -> sel_nsga2 q_ops fronts k = Some r ->
+  forall lastf, lastf = last fronts [] ->
+  forall x dx y dy,
+    In (x, dx) (combine lastf (assign_crowding q_ops lastf)) ->
+    In (y, dy) (combine lastf (assign_crowding q_ops lastf)) ->
+    In (uid x) (uids r) -> ~ In (uid y) (uids r) -> qinf_ge dx dy.
+Proof.
+  intros pop k fronts r W F S lastf E x dx y dy Ix Iy Sx Ny. apply qinf_ltb_ge.
+  apply (crowding_cut q_ops pop k fronts r W F S (fun _ => True)
+           (fun a b _ _ => qinf_ltb_asym a b) (fun a b c _ _ _ => qinf_ltb_ntrans a b c)
+           lastf E (proj2 (Forall_forall _ _) (fun _ _ => I)) x dx y dy Ix Iy Sx Ny).
+Qed.
+Print Assumptions C05_nsga2_crowding_cut.
+
+(* the hypothesis is decidable and the decision procedure run by the correspondence check on the
+   fronts returned by the implementation's sorter is sound *)
+Theorem C05_fronts_correct_decided : forall (A : Type) (pop : list (ind A)) k fu,
+  wf_pop_b pop = true -> fronts_correct_b pop k fu = true ->
+  wf_pop pop /\ fronts_correct pop k (map (select pop) fu).
+Proof.
+  intros A pop k fu W F. pose proof (wf_pop_b_sound pop W) as W'.
+  split; [exact W'|exact (fronts_correct_b_sound pop k fu W' F)].
+Qed.
+Print Assumptions C05_fronts_correct_decided.
+
+(* the peeling layers partition the population (every individual has a depth) *)
+Theorem C05_layers_partition : forall (A : Type) (pop : list (ind A)),
+  Permutation.Permutation (concat (layers pop)) pop /\
+  (wf_pop pop -> forall x, In x pop -> depth pop x < length (layers pop)).
+Proof. intros A pop. split; [apply layers_perm|intros W x; apply depth_lt, W]. Qed.
+Print Assumptions C05_layers_partition.
+
+(* non-vacuity: a population, the fronts a correct sorter returns for k = 2, and the selection *)
+Definition ex_pop : list (ind Q) :=
+  [mkind 0 [0; 2]%Z [0; 2]%Q; mkind 1 [1; 1]%Z [1; 1]%Q; mkind 2 [2; 0]%Z [2; 0]%Q; mkind 3 [0; 0]%Z [0; 0]%Q].
+Example C05_nonvacuous :
+  wf_pop_b ex_pop = true /\ fronts_correct_b ex_pop 2 [[2; 0; 1]] = true /\
+  fronts_correct_b ex_pop 4 [[0; 1; 2]; [3]] = true /\
+  option_map uids (sel_nsga2 q_ops (map (select ex_pop) [[2; 0; 1]]) 2) = Some [2; 0] /\
+  assign_crowding q_ops (select ex_pop [2; 0; 1]) = [Inf; Inf; Fin 1].
+Proof. vm_compute. repeat split. Qed.
